@@ -70,14 +70,18 @@ Cond == R("in", 1, 3, 0)      \* the boolean input, used by If only
 AddNode(n) == p' = [p EXCEPT !.g[1].nodes = Append(@, n)]
 \* an If node whose two bodies become new graphs at the end of p.g
 \* `two`: the then-body gets a second node using the first one (a body whose node order matters)
-AddIf(thenNode, elseNode, two) ==
+\* `own`: both bodies hold an initializer of their own (c1 / c2) and pass it through (siblings may repeat a name)
+AddIf(thenNode, elseNode, two, own) ==
   LET k == Len(p.g)
-      thenG == IF two THEN Gr(<<thenNode, Nd("Neg", <<>>, <<R("out", k + 1, 1, 1)>>, 1, <<>>, 0)>>, <<R("out", k + 1, 2, 1)>>, <<>>)
+      thenG == IF own THEN Gr(<<Nd("Identity", <<>>, <<R("init", k + 1, 1, 0)>>, 1, <<>>, 0)>>, <<R("out", k + 1, 1, 1)>>, <<"c1">>)
+               ELSE IF two THEN Gr(<<thenNode, Nd("Neg", <<>>, <<R("out", k + 1, 1, 1)>>, 1, <<>>, 0)>>, <<R("out", k + 1, 2, 1)>>, <<>>)
                ELSE Gr(<<thenNode>>, <<R("out", k + 1, 1, 1)>>, <<>>)
+      elseG == IF own THEN Gr(<<Nd("Identity", <<>>, <<R("init", k + 2, 1, 0)>>, 1, <<>>, 0)>>, <<R("out", k + 2, 1, 1)>>, <<"c2">>)
+               ELSE Gr(<<elseNode>>, <<R("out", k + 2, 1, 1)>>, <<>>)
   IN
   p' = [p EXCEPT !.g = Append(Append([@ EXCEPT ![1].nodes = Append(@, Nd("If", <<>>, <<Cond>>, 1, <<k + 1, k + 2>>, 0))],
                                      thenG),
-                              Gr(<<elseNode>>, <<R("out", k + 2, 1, 1)>>, <<>>))]
+                              elseG)]
 
 Build ==
   /\ phase = "build"
@@ -102,7 +106,9 @@ Build ==
            /\ "If" \in Ops
            /\ AddIf(Nd(IF tb = "Neg2" THEN "Neg" ELSE tb, <<>>, <<x>>, 1, <<>>, 0),
                     IF eb = "Add" THEN Nd("Add", <<>>, <<x, y>>, 1, <<>>, 0) ELSE Nd("Constant", <<<<"const", "c1">>>>, <<>>, 1, <<>>, 0),
-                    tb = "Neg2")
+                    tb = "Neg2", FALSE)
+     \/ /\ "If" \in Ops
+        /\ AddIf(Nd("Identity", <<>>, <<>>, 1, <<>>, 0), Nd("Identity", <<>>, <<>>, 1, <<>>, 0), FALSE, TRUE)
      \/ \E x \in Avail : "Call" \in Ops /\ AddNode(Nd("F1", <<>>, <<x>>, 1, <<>>, 1))
      \/ \E x \in Avail, y \in Second : "Call" \in Ops /\ AddNode(Nd("F2", <<>>, <<x, y>>, 1, <<>>, 2))
      \/ \E x \in Avail, a \in {<<>>, <<<<"p", "2.0">>>>} : "Call" \in Ops /\ AddNode(Nd("F3", a, <<x>>, 1, <<>>, 3))
